@@ -249,8 +249,9 @@ theorem lstep_dLoadEntry {n : Nat} (ih : AllLe cfg n) (name : Name) :
   simp only [dLoadEntry]
   refine le_bind (Le.refl _) ?_
   intro st
-  cases st.get .d (keyOf name) with
-  | some e => exact Le.refl _
+  match st.get .d (keyOf name) with
+  | some (some d) => exact Le.refl _
+  | some none => exact le_bind (ih.dFind name) (fun _ => Le.refl _)
   | none => exact le_bind (ih.dFind name) (fun _ => Le.refl _)
 
 theorem allLe : ∀ n, AllLe cfg n
